@@ -6,4 +6,6 @@ package kvql
 // (used by native replay; the engine calls the functions directly).
 var vHarnesses = map[string]func(a []int){
 	"VH_C16_A": func(a []int) { VH_C16_A(a[0], a[1]) },
+	"VH_C02_L1": func(a []int) { VH_C02_L1(a[0], a[1], a[2]) },
+	"VH_C02_L2": func(a []int) { VH_C02_L2(a[0], a[1], a[2], a[3], a[4]) },
 }
